@@ -320,7 +320,7 @@ func RunC19(r *core.Run) {
 				return append(out, buf[m.FLEnd:]...)
 			}
 			v1 := mk([]string{";received=192.0.2.1", ";rport=5060;received=10.0.0.1", ";ttl=1"}[rr.Intn(3)])
-			v2 := mk([]string{";received=abc-def_x", ";maddr=h+h/x;rport", ";x=\"q.r:s\""}[rr.Intn(3)])
+			v2 := mk([]string{";received=abc-def_x", ";maddr=h+h/x;rport", ";x=\"q.r:s\"", ";x=\"a\\\"b,c\"", ";y=\"p,q\";z=\"\\\\\""}[rr.Intn(5)])
 			g1, g2 := sigOf(v1, nh+3, []int{len(v1)}), sigOf(v2, nh+3, []int{len(v2)})
 			w.Eval(2)
 			if g1.pan == "" && g2.pan == "" && g1.pe == sipsp.ErrHdrOk && g2.pe == sipsp.ErrHdrOk {
